@@ -1,6 +1,126 @@
-//! C09 — implementation side of the correspondence (stub).
+//! C09 — crash faults: every allowed crash point is explored; crashed actors stay silent.
+//! Random `TableActor` systems with a crash budget of 1..3 whose handlers hold timers and pending choices are
+//! walked through the `Model` trait (as C06); the crash clauses are evaluated on the walk and on the handler
+//! invocation log (`o-crash`); when the walk closes, BFS and DFS checkers are run on the same model and their
+//! `unique_state_count`, visited states (StateRecorder) and crash-dependent discoveries are compared with the
+//! structural reachable set (`reach`).
 use srh::out::*;
+use srh::rng::Rng;
+use srh::table_actor::*;
+use stateright::actor::{ActorModel, ActorModelState};
+use stateright::{Checker, Expectation, Model, StateRecorder};
+use std::collections::{BTreeSet, HashSet};
+
+type A = TableActor<TMsg>;
+type M = ActorModel<A, HistCfg, Hist>;
+type St = ActorModelState<A, Hist>;
+
+fn budget_exhausted(m: &M, s: &St) -> bool { s.crashed.iter().filter(|c| **c).count() == m.max_crashes }
+fn actor0_up(_: &M, s: &St) -> bool { !s.crashed.first().copied().unwrap_or(false) }
+fn always_true(_: &M, _: &St) -> bool { true }
+
+fn summarize<C: Checker<M>>(chk: C) -> (usize, bool, bool) {
+    let d = chk.discoveries();
+    (chk.unique_state_count(), d.contains_key("budget-exhausted"), d.contains_key("actor0-up"))
+}
+
+fn run_system(out: &mut Out, spec: &SysSpec, bound: usize, sample: bool) {
+    let log = new_log();
+    let model: M = spec.model(spec.table_actors::<TMsg>(Some(&log)));
+    let sx = spec.to_sx(&[]);
+    let g = explore(&model, bound, &tstate_sx, Some(&log));
+    out.m(&format!("graph {} {}", sx, bound), &g.to_sx());
+    out.o(&format!("o-crash {} {}", sx, g.to_sx_with_log()));
+    out.stat(&format!("net-{}", spec.kind.name()));
+    out.stat(&format!("max-crashes-{}", spec.max_crashes));
+    out.stat(&format!("actors-{}", spec.tables.len()));
+    out.stat_n("states-discovered", g.states.len() as u64);
+    out.stat_n("transitions", g.transitions() as u64);
+
+    // identity: the crate's Eq / fingerprint against structural identity on everything discovered
+    let fps: HashSet<u64> = g.raw.iter().map(stateright::verif::fingerprint).collect();
+    if fps.len() != g.states.len() {
+        out.v("identity", &format!("system {}: {} structurally distinct states but {} distinct fingerprints", sx, g.states.len(), fps.len()));
+    }
+    let mut crash_steps = 0u64;
+    let mut max_down = 0usize;
+    for (i, rec) in g.records.iter().enumerate() {
+        let st = &g.raw[i];
+        let down = st.crashed.iter().filter(|c| **c).count();
+        max_down = max_down.max(down);
+        for t in rec {
+            if t.action_key[0] == 3 {
+                crash_steps += 1;
+                if !st.timers_set[t.action_key[1] as usize].iter().next().is_none() { out.stat("crash-discards-timers"); }
+                if !st.random_choices[t.action_key[1] as usize].map.is_empty() { out.stat("crash-discards-choices"); }
+                if st.timers_set[t.action_key[1] as usize].iter().next().is_none() && st.random_choices[t.action_key[1] as usize].map.is_empty() { out.stat("crash-of-idle-actor"); }
+                if let Res::To(j) = t.res {
+                    let s2 = &g.raw[j];
+                    if s2 == st { out.v("crash-not-distinct", &format!("system {} state {}: Crash({}) yields an equal state (PartialEq)", sx, g.states[i], t.action_key[1])); }
+                    if stateright::verif::fingerprint(s2) == stateright::verif::fingerprint(st) {
+                        out.v("crash-not-distinct", &format!("system {} state {}: Crash({}) yields the same fingerprint", sx, g.states[i], t.action_key[1]));
+                    }
+                }
+            }
+            if t.action_key[0] == 0 && st.crashed.get(t.action_key[2] as usize).copied().unwrap_or(false) { out.stat("delivery-to-crashed-offered"); }
+        }
+    }
+    out.stat_n("crash-steps", crash_steps);
+    out.stat(&format!("max-simultaneously-crashed-{}", max_down));
+    if crash_steps > 0 { out.distinct(&sx); }
+
+    if g.closed() {
+        out.stat("graph-closed");
+        let mine: BTreeSet<String> = g.states.iter().cloned().collect();
+        for dfs in [false, true] {
+            let (rec, acc) = StateRecorder::new_with_accessor();
+            let m2 = spec.model(spec.table_actors::<TMsg>(None))
+                .property(Expectation::Always, "true", always_true)
+                .property(Expectation::Sometimes, "budget-exhausted", budget_exhausted)
+                .property(Expectation::Always, "actor0-up", actor0_up);
+            let b = m2.checker().visitor(rec);
+            let (uniq, d_full, d_zero) = if dfs { summarize(b.spawn_dfs().join()) } else { summarize(b.spawn_bfs().join()) };
+            let name = if dfs { "dfs" } else { "bfs" };
+            let visited: BTreeSet<String> = acc().iter().map(|s| state_sx(s, &tstate_sx)).collect();
+            if visited != mine {
+                let missing: Vec<&String> = mine.difference(&visited).take(2).collect();
+                let extra: Vec<&String> = visited.difference(&mine).take(2).collect();
+                out.v("explored", &format!("system {}: {} checker visited {} states, structural reachable set has {}; missing {:?} extra {:?}", sx, name, visited.len(), mine.len(), missing, extra));
+            }
+            let vecs: BTreeSet<Vec<u8>> = acc().iter().map(|s| s.crashed.iter().map(|c| *c as u8).collect()).collect();
+            let vs = format!("({})", vecs.iter().map(|v| srh::sx::nums(v.iter())).collect::<Vec<_>>().join(" "));
+            out.m(&format!("reach {} {}", sx, bound), &format!("closed {} {} {} {}", uniq, vs, srh::sx::b(d_full), srh::sx::b(d_zero)));
+            out.stat(&format!("checker-run-{}", name));
+            out.stat(&format!("crashed-vectors-seen-{}", vecs.len().min(8)));
+        }
+    } else {
+        out.stat("graph-cut-by-bound");
+    }
+    if sample { out.sample(&format!("system {} -> {} states, {} crash steps, closed={}", sx, g.states.len(), crash_steps, g.closed())); }
+}
+
 fn main() {
-    let out = Out::new();
+    quiet_panics();
+    let mut out = Out::new();
+    let mut r = Rng::new(seed());
+    let th = thorough();
+    let n_sys = arg_u64("--systems", if th { 4000 } else { 330 }) as usize;
+    let bound = arg_u64("--bound", if th { 400 } else { 250 }) as usize;
+    for i in 0..n_sys {
+        let mut rr = r.fork();
+        let mut p = GenParams { max_crashes: (1, 3), ..Default::default() };
+        match i % 3 {
+            0 => { p.actors = (2, 3); p.density = 25; p.max_cmds = 2; p.states = (2, 2); }   // small: closes often
+            1 => { p.actors = (2, 4); p.density = 35; }
+            _ => { p.actors = (3, 4); }
+        }
+        let mut spec = gen_sys(&mut rr, &p);
+        // unbounded logs never close; keep the windowed / off modes for two thirds of the systems
+        if i % 3 != 2 {
+            if spec.hist.in_mode == 1 || spec.hist.in_mode == 2 { spec.hist.in_mode = 3; }
+            if spec.hist.out_mode == 1 || spec.hist.out_mode == 2 { spec.hist.out_mode = 3; }
+        }
+        run_system(&mut out, &spec, bound, i < 3);
+    }
     out.finish();
 }
